@@ -1871,11 +1871,101 @@ def run_corpus(run, items, outs):
     run.stream_info('corpus', rule='minimised witnesses of the findings of this property, replayed first')
 
 
+# ---- gap, word_spacing, border_width, border_radius called directly on a stub style (the functions of
+# gen/GenComputedGap.v): the CSS reading, in Python
+C_ABS = {'px': Fraction(1), 'pt': Fraction(4, 3), 'pc': Fraction(16), 'in': Fraction(96), 'cm': Fraction(9600, 254),
+         'mm': Fraction(960, 254), 'q': Fraction(960, 1016)}
+C_STYLES = ('none', 'hidden', 'dotted', 'dashed', 'solid', 'double', 'groove', 'ridge', 'inset', 'outset')
+C_BW_NAMES = ('border_top_width', 'border_right_width', 'border_bottom_width', 'border_left_width',
+              'column_rule_width', 'outline_width')
+
+
+def computer_px(c, v):
+    n, u = Fraction(v[0]), v[1]
+    if u == 'em':
+        return n * Fraction(c['own_fs'])
+    if u == 'rem':
+        return n * Fraction(c['own_fs'] if c['is_root'] else c['root_fs'])
+    return n * C_ABS[u]
+
+
+def computer_expected(c):
+    fn, v = c['fn'], c['value']
+    dim = lambda x: x if x[1] == '%' else [str(computer_px(c, x)), 'px']
+    if fn == 'border_radius':
+        return [dim(x) for x in v]
+    if fn == 'gap':
+        return 'normal' if v == 'normal' else dim(v)
+    if fn == 'word_spacing':
+        return '0' if v == 'normal' else str(computer_px(c, v))
+    if c['border_style'] in ('none', 'hidden'):
+        return '0'
+    if isinstance(v, str):
+        return {'thin': '1', 'medium': '3', 'thick': '5'}[v]
+    return str(v) if isinstance(v, int) else str(computer_px(c, v))
+
+
+def computer_same(e, g):
+    if isinstance(e, list) and e and isinstance(e[0], list):
+        return isinstance(g, list) and len(g) == len(e) and all(computer_same(a, b) for a, b in zip(e, g))
+    if isinstance(e, list):
+        return isinstance(g, list) and len(g) == 2 and g[1] == e[1] and near(Fraction(g[0]), Fraction(e[0]))
+    if e == 'normal':
+        return g == 'normal'
+    return isinstance(g, str) and g != 'normal' and near(Fraction(g), Fraction(e))
+
+
+def gen_computer_cases(rng, count):
+    def ln(pct):
+        u = rng.choice(sorted(C_ABS) + ['em', 'rem'] + (['%'] if pct else []))
+        return [str(Fraction(rng.randint(0, 400), rng.choice((1, 2, 4, 10)))), u]
+    cases = []
+    for _ in range(count):
+        c = dict(own_fs=str(rng.randint(1, 40)), root_fs=str(rng.randint(1, 40)), is_root=rng.random() < 0.2)
+        fn = rng.choice(('gap', 'word_spacing', 'border_width', 'border_width', 'border_radius'))
+        c['fn'] = fn
+        if fn == 'gap':
+            c.update(name=rng.choice(('column_gap', 'row_gap')), value='normal' if rng.random() < 0.2 else ln(True))
+        elif fn == 'word_spacing':
+            c.update(name='word_spacing', value='normal' if rng.random() < 0.2 else ln(False))
+        elif fn == 'border_radius':
+            c.update(name='border_top_left_radius', value=[ln(True), ln(True)])
+        else:
+            c.update(name=rng.choice(C_BW_NAMES), border_style=rng.choice(C_STYLES),
+                     value=rng.choice(('thin', 'medium', 'thick', 3, ln(False), ln(False))))
+        cases.append(c)
+    return cases
+
+
+def computer_judge(c, st, o):
+    """None when the implementation's answer is the expected one, else a description"""
+    if st != 'ok':
+        return '%s raised %s' % (c['fn'], (o or {}).get('type'))
+    e = computer_expected(c)
+    return None if computer_same(e, o) else '%s(%s, %r)%s = %r, expected %r' % (
+        c['fn'], c['name'], c['value'], ' with style %s' % c['border_style'] if c.get('border_style') else '', o, e)
+
+
+def run_computers(run, rng, thorough):
+    cases = gen_computer_cases(rng, 3000 if thorough else 400)
+    outs = common.run_impl('impl_c06', 'direct', [('computer', c) for c in cases], chunksize=32, limit=60)
+    for c, (st, o) in zip(cases, outs):
+        why = computer_judge(c, st, o)
+        if why:
+            run.fail(why, {'stream': 'computers-direct', 'case': c, 'outcome': o},
+                     signature='c06-computer:%s' % c['fn'])
+    run.count('computers-direct', len(cases), ['%s:%s' % (c['fn'], c['value']) for c in cases])
+    run.stream_info('computers-direct', rule='gap, word_spacing, border_width (6 names x 10 border styles x keyword / '
+                    'int / length), border_radius called on a stub style with random lengths in the 7 absolute units, '
+                    'em, rem, %; judged against the CSS reading in Python (the functions of gen/GenComputedGap.v)')
+
+
 def check(run):
     rng = random.Random(run.seed * 7919 + 6)
     thorough = run.tier == 'thorough'
     common.prove(run, 'C06', ['model/C06Judge.vo', 'proofs/C06_examples.vo', 'proofs/C06_gen_length.vo',
-                               'proofs/C06_gen_font_size.vo', 'proofs/C06_gen_tuples.vo'])
+                               'proofs/C06_gen_font_size.vo', 'proofs/C06_gen_tuples.vo', 'proofs/C06_gen_gap.vo',
+                               'proofs/C06_gen_border_width.vo'])
     run.trusted += ['Coq 8.16.1 kernel (coqc); vm_compute for the cases.v evaluation',
                     'cssselect2 / tinycss2 / tinyhtml5 (outside the repository): selector matching, specificity, '
                     'document parsing used by the reference cascade; cross-checked by an own matcher',
@@ -1933,6 +2023,8 @@ def check(run):
     lap('values-render')
     run_page_render(run, rng, thorough)
     lap('page-render')
+    run_computers(run, random.Random(run.seed * 7919 + 61), thorough)
+    lap('computers-direct')
     idocs = [gen_import_doc(rng) for _ in range(1500 if thorough else 200)]
     run_cascade_stream(run, 'import-dag', idocs, thorough)
     lap('import-dag')
@@ -1953,6 +2045,11 @@ def check(run):
 def replay(data):
     d = data.get('data', {})
     stream = d.get('stream', '')
+    if stream == 'computers-direct':
+        (st, o), = common.run_impl('impl_c06', 'direct', [('computer', d['case'])])
+        why = computer_judge(d['case'], st, o)
+        print('replay:', why or 'the answer is the expected one: %r' % (o,))
+        return 1 if why else 0
     if stream == 'corpus':
         it = d['item']
         (st, o), = common.run_impl('impl_c06', 'render_styles', [it['case']])
